@@ -227,6 +227,35 @@ def bk8(p, res):
     return n
 
 
+def bk11(p, res):
+    """power-of-two down-scaling kernels round: in every reference kernel named *pow2* / *power_of_two* the value that is shifted right by a variable amount is the sum of the
+    datum and a rounding bias (the i64 kernels add 2^(k-1) - sign); a plain arithmetic shift floors, which makes the element widths (FFT64 / NTT120 families) disagree by one
+    unit in the last place on cross-radix normalisations"""
+    n = 0
+    for f in sorted(p.fns.values(), key=lambda x: x.uid):
+        if not f.blocks or not f.uid.startswith("poulpy_cpu_ref::reference") or f.is_test() or not any(k in f.uid for k in ("pow2", "power_of_two")):
+            continue
+        flow = Flow(f)
+        for blk in f.blocks:
+            for st in blk["s"]:
+                if not (st[0] == "A" and st[2]["k"] == "Bin" and st[2].get("op") in ("Shr", "ShrUnchecked") and st[2]["o"][1][0] != "k"):
+                    continue
+                n += 1
+                biased = False
+                for r in flow.op_roots(st[2]["o"][0]):
+                    if r[0] == "bin" and f.blocks[r[1]]["s"][r[2]][2].get("op", "").startswith("Add"):
+                        biased = True
+                    elif r[0] == "call" and (f.callee_def(f.blocks[r[1]]["t"]) or {}).get("n") in ("wrapping_add", "checked_add", "add", "unwrap", "expect"):
+                        biased = True
+                if biased:
+                    res.ok("BK-11", {"fn": f.pretty})
+                else:
+                    res.bad("BK-11", f.pretty, "plain-shift-down-scaling",
+                            "%s scales down with a plain `>>` (floor) where its sibling kernels add the rounding bias 2^(k-1) - sign first: the two element widths disagree by one unit in "
+                            "the last place whenever the dropped bits are not zero" % f.pretty, site=f.where(st[3] if len(st) > 3 else None))
+    return n
+
+
 def bk10(p, res):
     """i128 accumulators hold exact values of i64 digits over the whole i64 range: a digit is widened before it is negated / added / subtracted.  Narrow arithmetic first
     (`ai.wrapping_neg() as i128`, `(a - b) as i128`) wraps at the ends of the i64 range (-i64::MIN) although the accumulator could hold the exact value."""
@@ -617,6 +646,7 @@ def run(res, tier):
     res.rule("BK-5", "target_feature kernels with a `len >> k` trip count have a scalar tail, a fallback to a *_ref kernel, or an explicit multiple-of-lanes check")
     res.rule("BK-7", "an AVX kernel's in-place (`*_assign_avx*`) and out-of-place forms use the same set of arithmetic / logic / compare intrinsics (loads, stores, constant set-ups ignored; a const-generic accumulate twin may add)")
     res.rule("BK-8", "where the reference kernel uses i64::wrapping_mul the AVX kernel of the same trait method does not multiply with _mm256_mul_epi32 (low 32 bits only)")
+    res.rule("BK-11", "reference power-of-two down-scaling kernels add a rounding bias before the right shift (i64 and i128 alike)")
     res.rule("BK-10", "NTT120 family: an i64 digit is widened to i128 before it is negated / added / subtracted (exact over the whole i64 range)")
     res.rule("BK-9", "same-name shape functions of reference::fft64 and reference::ntt120 compare a parameter against bounds that depend on the same parameters")
     res.rule("BK-6", "AVX normalisation step kernels: (get_digit, get_carry) applications per lsh branch equal those of the *_ref twin")
@@ -645,6 +675,8 @@ def run(res, tier):
         res.floor("BK-8", "kernel methods whose reference multiplies i64 x i64 wrapping", n8, 2, ref_min=0)
         n9 = bk9(p, res)
         res.floor("BK-9", "same-name shape functions of the two families with parameter bounds", n9, 1)
+        n11 = bk11(p, res)
+        res.floor("BK-11", "power-of-two down-scaling kernels", n11, 4, ref_min=4)
         n10 = bk10(p, res)
         res.floor("BK-10", "i64 -> i128 widenings of the NTT120 family", n10, 30, ref_min=20)
         n7 = bk7(p, res)
